@@ -20,7 +20,7 @@ const LIMIT: u64 = 3000;
 
 fn ros_gen(tier: Tier) -> RosGen {
     RosGen {
-        arr: ArrGen { tmax: tier.pick(30, 40), never: true, plateau_end: true, plain_curves: false, derived: false, acp: false, loose: false, depth: 1 },
+        arr: ArrGen { tmax: tier.pick(30, 40), never: true, plateau_end: true, plain_curves: true, derived: true, acp: false, loose: false, poisson: false, depth: 1 },
         cmax: 6,
         nmax: 4,
         pmax: 8,
